@@ -25,10 +25,11 @@ def main():
         sys.exit(runner.replay_file(a.path))
     spec = PROPS[a.prop]
     plan = dict(spec[a.tier])
-    if a.runs:
-        plan["runs"] = a.runs
-    if a.wall:
-        plan["wall"] = a.wall
+    for st in (plan.get("stages") or [plan]):
+        if a.runs:
+            st["runs"] = a.runs
+        if a.wall:
+            st["wall"] = a.wall
     chk = runner.Check(a.prop, spec["engine"], a.tier, plan, variant=spec.get("variant", "sim"),
                        evidence_meta=spec.get("meta"), extra_job=spec.get("job"))
     post = spec.get("post")
